@@ -269,7 +269,7 @@ def Variant.repaired : Variant := ⟨true, true⟩
 
 /-- THE SWITCH: the variant the driver runs, i.e. the text of /repo the correspondence check
     expects.  Set a field to `true` when the corresponding `fix:` commit is in /repo. -/
-def Variant.current : Variant := ⟨false, false⟩
+def Variant.current : Variant := ⟨true, true⟩
 
 /-! ## 5. Biclosed rule boxes -/
 
